@@ -463,6 +463,7 @@ class WireSocket(core.SimSocket):
         self.rec = None
         self.hold_reads = bool(w.cfg['steer_client_hs'])
         self.sent = []
+        self.reads = []
         self.flow = getattr(core.current_thread(), 'flow', None)
 
     def connect(self, address):
@@ -487,10 +488,16 @@ class WireSocket(core.SimSocket):
         if self.hold_reads and hasattr(net, 'hold_short'):
             net.hold_short += 1
             try:
-                return super().recv(n)
+                out = super().recv(n)
             finally:
                 net.hold_short -= 1
-        return super().recv(n)
+        else:
+            out = super().recv(n)
+        if len(self.reads) < 8:
+            self.reads.append((n, len(out)))
+            if self.rec is not None and self.rec.legacy:
+                WORLD[0].op(f'conn {self.conn.cid}: client recv({n}) -> {len(out)}B')
+        return out
 
 
 _SOCKSHIM = types.ModuleType('socket')
@@ -619,13 +626,11 @@ class Link:
         self.feed(stream[last:])
         return self
 
-    def push(self, fn):
-        t = self.tape
-        t.pushing, CUR[0] = True, t
-        try:
-            fn(self.proto)
-        finally:
-            t.pushing, CUR[0] = False, None
+    def dispose(self):
+        """the run server switches the garbage collector off: break the protocol <-> wrapper <-> transport cycles by hand"""
+        self.proto.__dict__.clear()
+        self.tr.__dict__.clear()
+        self.proto = self.tr = None
 
 
 class ConnRec:
@@ -716,6 +721,10 @@ class WireWorld:
         chans = cfg['channels']
         self.channel = chans[ch.choose('gen.channel', len(chans))]
         self.tls = bool(ch.choose('gen.legacy', 2) == 0) if cfg['tls'] == 'both' else bool(cfg['tls'])
+        if cfg['mode'] in ('hs', 'gpg'):
+            self.tls = False
+        if cfg['mode'] == 'gpg':
+            self.cfg['prechunk'] = False  # signature lengths vary from run to run: no chooser call may depend on them
         self.legacy = not self.tls
         self.active = ch.choose('gen.inactive', 4) != 1
         nonce = 500 + ch.choose('gen.nonce', 500) if self.legacy else 500
@@ -906,6 +915,9 @@ class WireWorld:
         mode = 'legacy' if self.legacy else 'tls'
         rm, sm = msgs_of(ref), msgs_of(sub)
         if after_close and len(sm) > len(rm) and sm[:len(rm)] == rm and ('lose',) in ref:
+            if self.vcount[('C14', 'processed_after_close', channel)]:
+                self.vcount[('C14', 'processed_after_close', channel)] += 1
+                return False
             self.violate('processed_after_close', channel,
                          f'{channel}/{mode} {where}: whole-message delivery processes {len(rm)} message(s) and then closes the '
                          f'connection (Twisted stops reading), the same bytes coalesced process {len(sm)}: reference {fmt(ref)} '
@@ -919,6 +931,9 @@ class WireWorld:
             what = 'exception'
         else:
             what = 'writes'
+        if self.vcount[('C14', 'framing_differs', f'{channel}:{mode}:{what}')]:
+            self.vcount[('C14', 'framing_differs', f'{channel}:{mode}:{what}')] += 1
+            return False
         self.violate('framing_differs', f'{channel}:{mode}:{what}',
                      f'{channel}/{mode} {where}: reference (whole messages) {fmt(ref)} != subject {fmt(sub)}')
         return False
@@ -1030,6 +1045,7 @@ class WireWorld:
                     L.feed_all(stream, cuts)
                 nfeed += 1
                 sub = view(L.tape)
+                L.dispose()
                 self.count_cuts(cuts, kind, bounds)
                 if sub != ref:
                     self.compare(ref, sub, channel, f'cuts at {list(cuts)} of {N}B{" glued to the final handshake packet" if glue else ""}',
@@ -1110,6 +1126,7 @@ class WireWorld:
                 L = Link(self, channel).feed_all(stream, cuts)
                 nfeed += 1
                 sub = view(L.tape)
+                L.dispose()
                 where = f'stream {N}B (id packet {len(p1)}B, echo packet {len(p2)}B, tail {len(tail)}B) cut at {list(cuts)}'
                 if sub != ref:
                     self.compare(ref, sub, channel, f'handshake [{sc_sig(sc)}] ' + where, items)
@@ -1204,6 +1221,7 @@ class WireWorld:
             cuts = self.chunkify(len(full), bounds)
             L = Link(self, channel).feed_all(full, cuts)
             sub = view(L.tape)
+            L.dispose()
             self.count_cuts(cuts, kind, bounds)
             where = f'{len(cuts) + 1} chunks, cuts {cuts[:12]}{"..." if len(cuts) > 12 else ""} of {len(full)}B (frame ends {bounds})'
             self.op(f'chunking {i}: {where} -> {"same" if sub == ref else "DIFFERENT"}')
@@ -1248,6 +1266,8 @@ class WireWorld:
         def write(data):
             data = bytes(data)
             tape.append(('push' if tape.pushing else 'write', data))
+            if rec.legacy and data[4:15] == b'timestamp: ':
+                world.op(f'conn {conn.cid}: server writes its challenge ({len(data)}B: 4B length + {len(data) - 4}B text)')
             if rec.legacy and data[4:15] == b'timestamp: ' and world.cfg['steer_client_hs'] and sock is not None:
                 # steering around the known defect of security._recv: the challenge reaches the real client in one piece
                 net.hold_chunk += 1
@@ -1261,6 +1281,7 @@ class WireWorld:
 
         def lose(*_a, **_k):
             tape.append(('lose',))
+            world.op(f'conn {conn.cid}: server calls loseConnection after {world.brief(tape[-4:-1])}')
             real_lose()
 
         tr.write, tr.loseConnection = write, lose
@@ -1396,11 +1417,21 @@ class WireWorld:
                 self.gate(rec.tape, VALID, f'real client, conn {i}', rec.channel)
                 done = ('echo', True) in rec.tape
                 if not done and rec.sock is not None:
+                    # the client half of the handshake went wrong: struct.error on a short read of the length prefix, or
+                    # the echo of a partial challenge was refused and everything after it fell into a closed connection
                     fl = rec.sock.flow
-                    if fl is None or (fl.exc is None and fl.stage == 'done'):  # otherwise reported by the flow itself
-                        self.violate('client_handshake_fragmentation', 'other_unnoticed',
-                                     f'conn {i} ({rec.channel}): a valid client (real security.connect) did not get through the handshake: '
-                                     f'server events {self.brief(rec.tape)}; client sent {len(sent)}B')
+                    exc = getattr(fl, 'exc', None)
+                    if ('echo', False) in rec.tape:
+                        sig = 'partial_challenge_echoed'
+                    elif isinstance(exc, struct.error) or (rec.sock.reads and rec.sock.reads[0][0] == 4 and rec.sock.reads[0][1] < 4):
+                        sig = 'length_prefix_short_read'
+                    else:
+                        sig = 'other'
+                    self.violate('client_handshake_fragmentation', sig,
+                                 f'conn {i} ({rec.channel}, flow {getattr(fl, "kind", "?")}): a valid client running the real security.connect '
+                                 f'did not get through the handshake when the server\'s challenge reached it in pieces; server side: '
+                                 f'{self.brief(rec.tape)}; client sent {len(sent)}B; client: '
+                                 f'{(getattr(fl, "where", "") or "no exception (it believes it is connected)").strip()[-200:]}')
                     continue
                 self.probes['handshake_valid'] += 1
             if not hs_ok:
@@ -1532,6 +1563,7 @@ class WireWorld:
             self.cfg['prechunk'] = False
             self.cfg['hs_faults'] = False
             self.run_client() if self.ch.choose('gen.wholekind', 2) else self.run_net()
+            self.nontrivial = any(msgs_of(view(r.tape)) for r in self.conns)
         else:
             getattr(self, 'run_' + mode)()
         return self.result()
@@ -1761,28 +1793,23 @@ class Flow:
 
             self.where = ''.join(traceback.format_exception(type(e), e, e.__traceback__)[-3:])[-400:]
 
+    def hs_failed(self):
+        w = self.world
+        mine = [r for r in w.conns if r.sock is not None and r.sock.flow is self]
+        return w.legacy and any(('echo', True) not in r.tape for r in mine)
+
     def judge(self):
         w = self.world
         if self.exc is not None or self.stage != 'done':
             what = type(self.exc).__name__ if self.exc is not None else 'stuck'
             mine = [r for r in w.conns if r.sock is not None and r.sock.flow is self]
-            bad = [r for r in mine if ('echo', True) not in r.tape]
-            if w.legacy and bad:
-                # the client half of the handshake went wrong: struct.error on a short read of the length, or the
-                # echo of a partial challenge was refused and everything after it fell into a closed connection
-                if isinstance(self.exc, struct.error):
-                    sig = 'length_prefix_short_read'
-                elif any(('echo', False) in r.tape for r in bad):
-                    sig = 'partial_challenge_echoed'
-                else:
-                    sig = 'other_' + what
-                w.violate('client_handshake_fragmentation', sig,
-                          f'flow {self.idx} ({self.kind}) at stage {self.stage}: a valid client running the real security.connect did not '
-                          f'get through the handshake when the server\'s challenge reached it in pieces ({what}); server side of the '
-                          f'connection: {w.brief(bad[0].tape)}; client: {self.where.strip()[-220:] or "never returned"}')
+            if self.hs_failed():
+                pass  # consequence of a handshake that did not complete: reported once, by judge_conns
             else:
                 w.violate('client_framing', f'{self.kind}:{what}',
                           f'flow {self.idx} ({self.kind}) at stage {self.stage}: {what} {self.where}')
+            return
+        if self.hs_failed():
             return
         got = [canon(x) for x in self.got]
         want = [canon_sent(x) for x in self.want]
